@@ -165,35 +165,12 @@ fn serve_conn(mut sock: TcpStream, steps: Vec<Step>, read_cap: Duration) -> Serv
 // ---------------------------------------------------------------- result rendering
 
 fn render_err(e: &Error) -> Value {
-    let disp = e.to_string();
-    let kind = if e.is_transient() {
-        "transient"
-    } else if e.is_permanent() {
-        "permanent"
-    } else if e.is_response() {
-        "response"
-    } else if e.is_client() {
-        "client"
-    } else if e.is_transport_shutdown() {
-        "shutdown"
-    } else if e.is_tls() {
-        "tls"
-    } else if disp.starts_with("Connection error") {
-        "connection"
-    } else if disp.starts_with("network error") {
-        "network"
-    } else {
-        "other"
-    };
-    let code: Option<u16> = e.status().map(|c| c.into());
-    let src = std::error::Error::source(e).map(|s| s.to_string()).unwrap_or_default();
-    json!({"err": {"kind": kind, "code": code, "text": hex(src.as_bytes()), "timeout": e.is_timeout()}})
+    json!(crate::pure::err_s(e))
 }
 
 fn render_resp(r: &Response) -> Value {
     let code: u16 = r.code().into();
-    let lines: Vec<String> = r.message().map(|l| hex(l.as_bytes())).collect();
-    json!({"ok": {"code": code, "lines": lines}})
+    json!(format!("ok,{},{}", code, crate::pure::hexlist(&r.message().collect::<Vec<_>>())))
 }
 
 fn render(r: &Result<Response, Error>) -> Value {
@@ -201,6 +178,10 @@ fn render(r: &Result<Response, Error>) -> Value {
         Ok(r) => render_resp(r),
         Err(e) => render_err(e),
     }
+}
+
+fn with_b(v: Value, broken: bool) -> Value {
+    json!(format!("{},b{}", v.as_str().unwrap(), if broken { 1 } else { 0 }))
 }
 
 fn s_of(v: &Value) -> String {
@@ -234,16 +215,8 @@ fn mechs_of(op: &Value) -> Vec<Mechanism> {
         .unwrap_or_default()
 }
 
-fn server_info_json(name: &str, info: &lettre::transport::smtp::extension::ServerInfo) -> Value {
-    use lettre::transport::smtp::extension::Extension as X;
-    let mut f = vec![];
-    if info.supports_feature(X::EightBitMime) { f.push("8BITMIME"); }
-    if info.supports_feature(X::SmtpUtfEight) { f.push("SMTPUTF8"); }
-    if info.supports_feature(X::StartTls) { f.push("STARTTLS"); }
-    if info.supports_auth_mechanism(Mechanism::Plain) { f.push("PLAIN"); }
-    if info.supports_auth_mechanism(Mechanism::Login) { f.push("LOGIN"); }
-    if info.supports_auth_mechanism(Mechanism::Xoauth2) { f.push("XOAUTH2"); }
-    json!({"name": hex(name.as_bytes()), "features": f})
+fn server_info_json(_name: &str, info: &lettre::transport::smtp::extension::ServerInfo) -> Value {
+    json!(crate::pure::info_s(info))
 }
 
 // ---------------------------------------------------------------- client ops (sync)
@@ -267,7 +240,7 @@ fn run_sync(ops: &[Value], port: u16, timeout: Duration) -> Vec<Value> {
                 let hello = ClientId::Domain(s_of(&op["hello"]));
                 match SmtpConnection::connect(("127.0.0.1", port), Some(timeout), &hello, None, None) {
                     Ok(c) => {
-                        let v = json!({"connected": server_info_json(c.server_info().name(), c.server_info())});
+                        let v = server_info_json(c.server_info().name(), c.server_info());
                         conn = Some(c);
                         v
                     }
@@ -277,36 +250,32 @@ fn run_sync(ops: &[Value], port: u16, timeout: Duration) -> Vec<Value> {
             "send" => match (conn.as_mut(), envelope_of(op)) {
                 (Some(c), Ok(env)) => {
                     let r = c.send(&env, &unhex(op["msg"].as_str().unwrap()));
-                    let mut v = render(&r);
-                    v["broken"] = json!(c.has_broken());
-                    v
+                    with_b(render(&r), c.has_broken())
                 }
-                (None, _) => json!({"skip": "no connection"}),
-                (_, Err(e)) => json!({"skip": e}),
+                (None, _) => json!("skip"),
+                (_, Err(e)) => json!(format!("skip:{e}")),
             },
             "auth" => match conn.as_mut() {
                 Some(c) => {
                     let creds = Credentials::new(s_of(&op["user"]), s_of(&op["pass"]));
                     let r = c.auth(&mechs_of(op), &creds);
-                    let mut v = render(&r);
-                    v["broken"] = json!(c.has_broken());
-                    v
+                    with_b(render(&r), c.has_broken())
                 }
-                None => json!({"skip": "no connection"}),
+                None => json!("skip"),
             },
             "noop" => match conn.as_mut() {
-                Some(c) => json!({"bool": c.test_connected(), "broken": c.has_broken()}),
-                None => json!({"skip": "no connection"}),
+                Some(c) => { let b = c.test_connected(); json!(format!("bool,{},b{}", b as u8, c.has_broken() as u8)) }
+                None => json!("skip"),
             },
             "quit" => match conn.as_mut() {
-                Some(c) => { let r = c.quit(); let mut v = render(&r); v["broken"] = json!(c.has_broken()); v }
-                None => json!({"skip": "no connection"}),
+                Some(c) => { let r = c.quit(); with_b(render(&r), c.has_broken()) }
+                None => json!("skip"),
             },
             "abort" => match conn.as_mut() {
-                Some(c) => { c.abort(); json!({"unit": true, "broken": c.has_broken()}) }
-                None => json!({"skip": "no connection"}),
+                Some(c) => { c.abort(); json!(format!("unit,b{}", c.has_broken() as u8)) }
+                None => json!("skip"),
             },
-            "drop" => { conn = None; json!({"unit": true}) }
+            "drop" => { conn = None; json!("unit") }
             "transport" => {
                 let mut b = SmtpTransport::builder_dangerous("127.0.0.1").port(port).timeout(Some(timeout))
                     .hello_name(ClientId::Domain(s_of(&op["hello"])));
@@ -316,22 +285,22 @@ fn run_sync(ops: &[Value], port: u16, timeout: Duration) -> Vec<Value> {
                 if op["mechs"].is_array() { b = b.authentication(mechs_of(op)); }
                 if op["pool"].is_object() { b = b.pool_config(pool_cfg(&op["pool"])); } else { b = b.pool_config(PoolConfig::new().max_size(0)); }
                 tr = Some(b.build());
-                json!({"unit": true})
+                json!("unit")
             }
             "tsend" => match (tr.as_ref(), envelope_of(op)) {
                 (Some(t), Ok(env)) => render(&t.send_raw(&env, &unhex(op["msg"].as_str().unwrap()))),
-                (None, _) => json!({"skip": "no transport"}),
-                (_, Err(e)) => json!({"skip": e}),
+                (None, _) => json!("skip"),
+                (_, Err(e)) => json!(format!("skip:{e}")),
             },
             "ttest" => match tr.as_ref() {
-                Some(t) => match t.test_connection() { Ok(b) => json!({"bool": b}), Err(e) => render_err(&e) },
-                None => json!({"skip": "no transport"}),
+                Some(t) => match t.test_connection() { Ok(b) => json!(format!("bool,{}", b as u8)), Err(e) => render_err(&e) },
+                None => json!("skip"),
             },
-            "tshutdown" => { if let Some(t) = tr.as_ref() { t.shutdown(); } json!({"unit": true}) }
+            "tshutdown" => { if let Some(t) = tr.as_ref() { t.shutdown(); } json!("unit") }
             "tdebug" => json!({"debug": tr.as_ref().map(|t| format!("{t:?}")).unwrap_or_default()}),
-            "tdrop" => { tr = None; json!({"unit": true}) }
-            "sleep" => { std::thread::sleep(Duration::from_millis(op["ms"].as_u64().unwrap_or(10))); json!({"unit": true}) }
-            _ => json!({"skip": "unknown op"}),
+            "tdrop" => { tr = None; json!("unit") }
+            "sleep" => { std::thread::sleep(Duration::from_millis(op["ms"].as_u64().unwrap_or(10))); json!("unit") }
+            _ => json!("skip"),
         };
         out.push(r);
     }
@@ -353,7 +322,7 @@ async fn run_tokio(ops: &[Value], port: u16, timeout: Duration) -> Vec<Value> {
                 let hello = ClientId::Domain(s_of(&op["hello"]));
                 match AsyncSmtpConnection::connect_tokio1(("127.0.0.1", port), Some(timeout), &hello, None, None).await {
                     Ok(c) => {
-                        let v = json!({"connected": server_info_json(c.server_info().name(), c.server_info())});
+                        let v = server_info_json(c.server_info().name(), c.server_info());
                         conn = Some(c);
                         v
                     }
@@ -363,36 +332,32 @@ async fn run_tokio(ops: &[Value], port: u16, timeout: Duration) -> Vec<Value> {
             "send" => match (conn.as_mut(), envelope_of(op)) {
                 (Some(c), Ok(env)) => {
                     let r = c.send(&env, &unhex(op["msg"].as_str().unwrap())).await;
-                    let mut v = render(&r);
-                    v["broken"] = json!(c.has_broken());
-                    v
+                    with_b(render(&r), c.has_broken())
                 }
-                (None, _) => json!({"skip": "no connection"}),
-                (_, Err(e)) => json!({"skip": e}),
+                (None, _) => json!("skip"),
+                (_, Err(e)) => json!(format!("skip:{e}")),
             },
             "auth" => match conn.as_mut() {
                 Some(c) => {
                     let creds = Credentials::new(s_of(&op["user"]), s_of(&op["pass"]));
                     let r = c.auth(&mechs_of(op), &creds).await;
-                    let mut v = render(&r);
-                    v["broken"] = json!(c.has_broken());
-                    v
+                    with_b(render(&r), c.has_broken())
                 }
-                None => json!({"skip": "no connection"}),
+                None => json!("skip"),
             },
             "noop" => match conn.as_mut() {
-                Some(c) => json!({"bool": c.test_connected().await, "broken": c.has_broken()}),
-                None => json!({"skip": "no connection"}),
+                Some(c) => { let b = c.test_connected().await; json!(format!("bool,{},b{}", b as u8, c.has_broken() as u8)) }
+                None => json!("skip"),
             },
             "quit" => match conn.as_mut() {
-                Some(c) => { let r = c.quit().await; let mut v = render(&r); v["broken"] = json!(c.has_broken()); v }
-                None => json!({"skip": "no connection"}),
+                Some(c) => { let r = c.quit().await; with_b(render(&r), c.has_broken()) }
+                None => json!("skip"),
             },
             "abort" => match conn.as_mut() {
-                Some(c) => { c.abort().await; json!({"unit": true, "broken": c.has_broken()}) }
-                None => json!({"skip": "no connection"}),
+                Some(c) => { c.abort().await; json!(format!("unit,b{}", c.has_broken() as u8)) }
+                None => json!("skip"),
             },
-            "drop" => { conn = None; json!({"unit": true}) }
+            "drop" => { conn = None; json!("unit") }
             "transport" => {
                 let mut b = AsyncSmtpTransport::<Tokio1Executor>::builder_dangerous("127.0.0.1").port(port).timeout(Some(timeout))
                     .hello_name(ClientId::Domain(s_of(&op["hello"])));
@@ -402,22 +367,22 @@ async fn run_tokio(ops: &[Value], port: u16, timeout: Duration) -> Vec<Value> {
                 if op["mechs"].is_array() { b = b.authentication(mechs_of(op)); }
                 if op["pool"].is_object() { b = b.pool_config(pool_cfg(&op["pool"])); } else { b = b.pool_config(PoolConfig::new().max_size(0)); }
                 tr = Some(b.build());
-                json!({"unit": true})
+                json!("unit")
             }
             "tsend" => match (tr.as_ref(), envelope_of(op)) {
                 (Some(t), Ok(env)) => render(&t.send_raw(&env, &unhex(op["msg"].as_str().unwrap())).await),
-                (None, _) => json!({"skip": "no transport"}),
-                (_, Err(e)) => json!({"skip": e}),
+                (None, _) => json!("skip"),
+                (_, Err(e)) => json!(format!("skip:{e}")),
             },
             "ttest" => match tr.as_ref() {
-                Some(t) => match t.test_connection().await { Ok(b) => json!({"bool": b}), Err(e) => render_err(&e) },
-                None => json!({"skip": "no transport"}),
+                Some(t) => match t.test_connection().await { Ok(b) => json!(format!("bool,{}", b as u8)), Err(e) => render_err(&e) },
+                None => json!("skip"),
             },
-            "tshutdown" => { if let Some(t) = tr.as_ref() { t.shutdown().await; } json!({"unit": true}) }
+            "tshutdown" => { if let Some(t) = tr.as_ref() { t.shutdown().await; } json!("unit") }
             "tdebug" => json!({"debug": tr.as_ref().map(|t| format!("{t:?}")).unwrap_or_default()}),
-            "tdrop" => { tr = None; json!({"unit": true}) }
-            "sleep" => { tokio::time::sleep(Duration::from_millis(op["ms"].as_u64().unwrap_or(10))).await; json!({"unit": true}) }
-            _ => json!({"skip": "unknown op"}),
+            "tdrop" => { tr = None; json!("unit") }
+            "sleep" => { tokio::time::sleep(Duration::from_millis(op["ms"].as_u64().unwrap_or(10))).await; json!("unit") }
+            _ => json!("skip"),
         };
         out.push(r);
     }
